@@ -107,12 +107,26 @@ def _model_records(ctx, count, rid0):
             with ctx.guard('model', dict(st=as_list(st), sc=as_list(sc))):
                 m = D.load(p)
                 try:
-                    cl = sorted(set(as_list(sc))) + [int(sc.max()) + 1]
-                    recs.append(dict(
-                        id=rid0 + len(recs), kind='model', st=as_list(st), sc=as_list(sc), nt=nt,
-                        cluster_spikes=[[c, as_list(m.get_cluster_spikes(c))] for c in cl],
-                        template_spikes=[[t, as_list(m.get_template_spikes(t))] for t in range(nt)],
-                        template_counts=[[c, as_list(m.get_template_counts(c))] for c in cl]))
+                    def record(sc_now):
+                        cl = sorted(set(as_list(sc_now))) + [int(sc_now.max()) + 1]
+                        recs.append(dict(
+                            id=rid0 + len(recs), kind='model', st=as_list(st), sc=as_list(sc_now), nt=nt,
+                            cluster_spikes=[[c, as_list(m.get_cluster_spikes(c))] for c in cl],
+                            template_spikes=[[t, as_list(m.get_template_spikes(t))] for t in range(nt)],
+                            template_counts=[[c, as_list(m.get_template_counts(c))] for c in cl]))
+                    record(sc)
+                    if k % 2:
+                        # the model keeps spike_clusters as an in-memory copy "so that we can update this array
+                        # during manual clustering": a merge and a split written into it (new ids max+1, max+2);
+                        # the queries follow the current assignment
+                        sc2 = np.array(sc)
+                        ids = np.unique(sc2)
+                        new = int(sc2.max()) + 1
+                        sc2[np.isin(sc2, ids[:2])] = new
+                        idx = np.nonzero(sc2 == ids[-1])[0]
+                        sc2[idx[::2]] = new + 1
+                        m.spike_clusters[:] = sc2
+                        record(sc2)
                 finally:
                     m.close()
             if ctx.abort:
